@@ -223,7 +223,7 @@ func emitSections(out *Out, cdc codec.Codec, what string, a, b map[string]json.R
 			ra, ok1 := epochRows(cdc, a[m])
 			rb, ok2 := epochRows(cdc, b[m])
 			if ok1 && ok2 {
-				out.Emit(fmt.Sprintf("chk epochsRebased tag=%s.epochs h=%d | %s // %s", what, newInitialHeight, strings.Join(ra, " "), strings.Join(rb, " ")), "true", "epochs", true)
+				out.Emit(fmt.Sprintf("chk epochsRebased/%s.epochs tag=%s.epochs h=%d | %s // %s", what, what, newInitialHeight, strings.Join(ra, " "), strings.Join(rb, " ")), "true", "epochs", true)
 				continue
 			}
 		}
@@ -237,7 +237,7 @@ func emitSections(out *Out, cdc codec.Codec, what string, a, b map[string]json.R
 				os.WriteFile(base+"-after.json", sb, 0o644)
 			}
 		}
-		out.Emit(fmt.Sprintf("chk docEq tag=%s.%s bytes=%d diff=%s | %s %s", what, m, len(sa), diffPath(sa, sb), digest(sa), digest(sb)), "true", what, len(sa) > 40)
+		out.Emit(fmt.Sprintf("chk docEq/%s.%s tag=%s.%s bytes=%d diff=%s | %s %s", what, m, what, m, len(sa), diffPath(sa, sb), digest(sa), digest(sb)), "true", what, len(sa) > 40)
 	}
 }
 
@@ -368,7 +368,7 @@ func observationQueries() []queryCase {
 func emitQueries(out *Out, cdc codec.Codec, what string, a, b *sifapp.SifchainApp, qs []queryCase, obs map[string]int) {
 	for _, q := range qs {
 		ra, rb := runQuery(a, cdc, q), runQuery(b, cdc, q)
-		out.Emit(fmt.Sprintf("chk docEq tag=%s.query.%s bytes=%d diff=%s | %s %s", what, sanitize(q.name), len(ra), diffPath(ra, rb), digest(ra), digest(rb)), "true", "query", len(ra) > 30)
+		out.Emit(fmt.Sprintf("chk docEq/%s.query.%s tag=%s.query.%s bytes=%d diff=%s | %s %s", what, sanitize(q.name), what, sanitize(q.name), len(ra), diffPath(ra, rb), digest(ra), digest(rb)), "true", "query", len(ra) > 30)
 	}
 	for _, q := range observationQueries() {
 		ra, rb := runQueryOpt(a, cdc, q, false), runQueryOpt(b, cdc, q, false)
@@ -445,7 +445,7 @@ func emitStores(out *Out, what string, a, b *sifapp.SifchainApp) {
 				os.WriteFile(base+"-imported.txt", jb, 0o644)
 			}
 		}
-		out.Emit(fmt.Sprintf("chk docEq tag=%s.store.%s.%s entries=%d diff=%s | %s %s", what, c.module, c.name, len(da), sanitize(diff), digest(ja), digest(jb)), "true", "store", len(da) > 0)
+		out.Emit(fmt.Sprintf("chk docEq/%s.store.%s.%s tag=%s.store.%s.%s entries=%d diff=%s | %s %s", what, c.module, c.name, what, c.module, c.name, len(da), sanitize(diff), digest(ja), digest(jb)), "true", "store", len(da) > 0)
 	}
 }
 
@@ -459,18 +459,18 @@ func roundTripHistory(out *Out, rng *Rng, idx int, obs map[string]int) {
 	what := "export"
 	secA, heightA, stateA, err := exportSections(p.C.App)
 	if err != nil {
-		out.Emit(fmt.Sprintf("chk docEq tag=export.failed.A n=2 | ok %s", sanitize(err.Error())), "true", "export-error", false)
+		out.Emit(fmt.Sprintf("chk docEq/export.failed.A tag=export.failed.A n=2 | ok %s", sanitize(err.Error())), "true", "export-error", false)
 		return
 	}
 	lastTime := p.Spec.Blocks[len(p.Spec.Blocks)-1].Time
 	b, perr := importApp(fmt.Sprintf("import-%d", idx), stateA, heightA, lastTime, p.Spec.Blacklist)
 	if perr != "" {
-		out.Emit(fmt.Sprintf("chk docEq tag=import.panicked | ok %s", sanitize(perr)), "true", "import-panic", false)
+		out.Emit(fmt.Sprintf("chk docEq/import.panicked tag=import.panicked | ok %s", sanitize(perr)), "true", "import-panic", false)
 		return
 	}
 	secB, _, _, err := exportSections(b.App)
 	if err != nil {
-		out.Emit(fmt.Sprintf("chk docEq tag=export.failed.B | ok %s", sanitize(err.Error())), "true", "export-error", false)
+		out.Emit(fmt.Sprintf("chk docEq/export.failed.B tag=export.failed.B | ok %s", sanitize(err.Error())), "true", "export-error", false)
 		return
 	}
 	emitSections(out, cdc, what, secA, secB, heightA, false)
